@@ -19,7 +19,7 @@ type CustomOpts struct {
 	MaxFaults int
 }
 
-var hookKinds = []string{"extend", "extendExt", "extendErr", "extendCtx", "extendConv", "extendRegex", "method", "methodErr", "mapFunc", "mapFuncErr", "mapNoSource", "underlying", "underlyingMethod", "extendErrCtx"}
+var hookKinds = []string{"extend", "extendExt", "extendErr", "extendCtx", "extendConv", "extendRegex", "method", "methodErr", "mapFunc", "mapFuncErr", "mapNoSource", "underlying", "underlyingMethod", "extendErrCtx", "extendSame", "extendExtCtxRegex"}
 
 // CustomCase builds one case mixing automatic rules with custom functions.
 func CustomCase(r *rand.Rand, name string, o CustomOpts) *Case {
@@ -27,7 +27,10 @@ func CustomCase(r *rand.Rand, name string, o CustomOpts) *Case {
 	ty := &Package{Path: "ty", Name: "ty"}
 	conv := &Package{Path: "conv", Name: "conv", Files: map[string]string{}}
 	ext := &Package{Path: "ext", Name: "ext", Files: map[string]string{}}
+	ext2 := &Package{Path: "more/ext", Name: "ext", Files: map[string]string{}}
 	c.Pkgs = []*Package{ty, conv, ext}
+	var funcsExt2 strings.Builder
+	sameType := false
 	decl := func(name string, under *Type) *Decl {
 		d := &Decl{Pkg: ty, Name: name, Under: under}
 		ty.Decls = append(ty.Decls, d)
@@ -65,7 +68,7 @@ func CustomCase(r *rand.Rand, name string, o CustomOpts) *Case {
 		}
 		failStmt := fmt.Sprintf("\tif err := vref.Fail(int64(a.V)); err != nil {\n\t\treturn ty.HB%d{}, err\n\t}\n", i)
 		switch kind {
-		case "extend", "extendExt", "extendErr", "extendCtx", "extendConv", "extendRegex", "extendErrCtx":
+		case "extend", "extendExt", "extendErr", "extendCtx", "extendConv", "extendRegex", "extendErrCtx", "extendSame", "extendExtCtxRegex":
 			fname := fmt.Sprintf("Ext%d", i)
 			if kind == "extendRegex" {
 				fname = fmt.Sprintf("Hook%dRx", i)
@@ -83,6 +86,23 @@ func CustomCase(r *rand.Rand, name string, o CustomOpts) *Case {
 			}
 			roles := []string{"source"}
 			switch kind {
+			case "extendSame":
+				// an extend function for a pair of IDENTICAL types: it must win over skipCopySameType
+				hb = ha
+				fmt.Fprintf(sb, "func %s(a ty.HA%d) ty.HA%d {\n\treturn ty.HA%d{V: a.V + %d, Tag: a.Tag + \"|%s\"}\n}\n\n", fname, i, i, i, 1000*i, fname)
+				sameType = true
+			case "extendExtCtxRegex":
+				// a context-taking function in a second package that is also NAMED ext, selected by a regular expression;
+				// the first ext package contributes an unrelated function so that both packages are scanned
+				fname = fmt.Sprintf("Far%dHook", i)
+				sb = &funcsExt2
+				qual = "ext2."
+				line = fmt.Sprintf("extend %s/more/ext:Far%d.*", c.Root, i)
+				fmt.Fprintf(sb, "// goverter:context ctx\nfunc %s(a ty.HA%d, ctx ty.CtxA) ty.HB%d {\n\treturn %s\n}\n\n", fname, i, i, hookBody(fname, " + \"|\" + ctx.ID"))
+				fmt.Fprintf(&funcsExt, "// Near%d is unrelated; its parameter ctx is its source.\nfunc Near%d(ctx ty.CtxB) ty.CtxB { return ctx }\n\n", i, i)
+				convLines = append(convLines, fmt.Sprintf("extend %s/ext:Near%d", c.Root, i))
+				needCtxA = true
+				roles = []string{"source", "ctx"}
 			case "extendErr":
 				fmt.Fprintf(sb, "func %s(a ty.HA%d) (ty.HB%d, error) {\n%s\treturn %s, nil\n}\n\n", fname, i, i, failStmt, hookBody(fname, ""))
 				fallible = true
@@ -195,7 +215,7 @@ func CustomCase(r *rand.Rand, name string, o CustomOpts) *Case {
 			continue
 		}
 		// positions of the pair inside S / T
-		pos := []string{"D", "L", "M", "P", "N", "LN", "MP", "MK"}
+		pos := []string{"D", "L", "M", "P", "N", "LN", "MP", "MK", "MKE", "LL"}
 		r.Shuffle(len(pos), func(a, b int) { pos[a], pos[b] = pos[b], pos[a] })
 		for _, p := range pos[:1+r.Intn(3)] {
 			f := fmt.Sprintf("%s%d", p, i)
@@ -223,6 +243,27 @@ func CustomCase(r *rand.Rand, name string, o CustomOpts) *Case {
 				callables["fn:"+kf] = "conv." + kf
 				sS.Fields = append(sS.Fields, F(f, Map(Named(ks), Named(ha))))
 				tS.Fields = append(tS.Fields, F(f, Map(Named(kt), Named(hb))))
+			case "LL":
+				// nested unnamed lists: one method sets a field, an outer index and an inner index
+				sS.Fields = append(sS.Fields, F(f, Slice(Slice(Named(ha)))))
+				tS.Fields = append(tS.Fields, F(f, Slice(Slice(Named(hb)))))
+			case "MKE":
+				// the map key is converted by a FALLIBLE extend function (its id is the number inside the generated key)
+				if !fallible && !o.Fallible {
+					sS.Fields = append(sS.Fields, F(f, Named(ha)))
+					tS.Fields = append(tS.Fields, F(f, Named(hb)))
+					break
+				}
+				ks := decl(fmt.Sprintf("KES%d", i), Basic("string"))
+				kt := decl(fmt.Sprintf("KET%d", i), Basic("string"))
+				kf := fmt.Sprintf("KeyConvE%d", i)
+				fmt.Fprintf(&funcsLocal, "func %s(k ty.KES%d) (ty.KET%d, error) {\n\tvar id int64\n\tfmt.Sscanf(string(k), \"s%%d\", &id)\n\tif err := vref.Fail(id); err != nil {\n\t\treturn \"\", err\n\t}\n\treturn ty.KET%d(\"key<\" + string(k) + \">\"), nil\n}\n\n", kf, i, i, i)
+				convLines = append(convLines, "extend "+kf)
+				specFuncs = append(specFuncs, &vref.FuncSpec{Key: "fn:" + kf, Kind: "extend", Roles: []string{"source"}})
+				callables["fn:"+kf] = "conv." + kf
+				sS.Fields = append(sS.Fields, F(f, Map(Named(ks), Named(ha))))
+				tS.Fields = append(tS.Fields, F(f, Map(Named(kt), Named(hb))))
+				fallible = true
 			case "MP":
 				sS.Fields = append(sS.Fields, F(f, Map(Basic("int"), Slice(Ptr(Named(ha))))))
 				tS.Fields = append(tS.Fields, F(f, Map(Basic("int"), Slice(Ptr(Named(hb))))))
@@ -247,6 +288,10 @@ func CustomCase(r *rand.Rand, name string, o CustomOpts) *Case {
 		kindsUsed["recursive"] = true
 	}
 	flags := vref.Flags{}
+	if sameType {
+		convLines = append(convLines, "skipCopySameType")
+		flags.SkipCopy = true
+	}
 	if underlying || underlyingFlag {
 		convLines = append(convLines, "useUnderlyingTypeMethods")
 		flags.UseUnderlying = true
@@ -335,6 +380,10 @@ func CustomCase(r *rand.Rand, name string, o CustomOpts) *Case {
 	} else {
 		c.Pkgs = []*Package{ty, conv}
 	}
+	if funcsExt2.Len() > 0 {
+		ext2.Files["funcs.go"] = header("ext") + funcsExt2.String()
+		c.Pkgs = append(c.Pkgs, ext2)
+	}
 	// glue imports
 	for _, ex := range callables {
 		if strings.HasPrefix(ex, "conv.") && o.Format != "variables" {
@@ -342,6 +391,9 @@ func CustomCase(r *rand.Rand, name string, o CustomOpts) *Case {
 		}
 		if strings.HasPrefix(ex, "ext.") {
 			cv.GlueImports = appendUnique(cv.GlueImports, fmt.Sprintf("ext %q", c.Root+"/ext"))
+		}
+		if strings.HasPrefix(ex, "ext2.") {
+			cv.GlueImports = appendUnique(cv.GlueImports, fmt.Sprintf("ext2 %q", c.Root+"/more/ext"))
 		}
 	}
 	if o.Format == "variables" {
